@@ -52,6 +52,10 @@ def generate(prop, seed, tier):
     if g.random() < 0.3:
         G.constant_factors(spec, g)
     method = g.choice(['fixed-point', 'fixed-point', 'newton', 'newton', 'linear'])
+    if g.random() < 0.12:
+        # one linear SCC of 3-5 mutually recursive nonterminals (ring + chords): block elimination with fill-in
+        spec = G.ring_chord_spec(g, 'unit' if menu == 'unit' else 'small')
+        method = g.choice(['linear', 'newton', 'newton', 'fixed-point'])
     return {'engine': 'solver', 'prop': prop, 'seed': seed, 'spec': spec, 'semiring': sem, 'method': method,
             'tol': g.choice([1e-3, 1e-5, 1e-7, 1e-7, 0.0]), 'kmax_mode': g.choice(['0', '1', '2', 'K-1', 'K', 'K+5', '1000', '1000', '1000']),
             'env': {'alloc': {'mode': 'order', 'seed': seed}, 'axhash': seed,
